@@ -45,6 +45,7 @@ type Service struct {
 	names        []string
 	descriptions map[string]string
 	running      bool
+	serving      bool // a Listen/DoListen call has not returned yet (connections may still be handled)
 	listener     net.Listener
 	conncounter  int64
 	mutex        sync.Mutex
@@ -150,6 +151,13 @@ func (s *Service) isRunning() bool {
 	s.mutex.Lock()
 	defer s.mutex.Unlock()
 	return s.running
+}
+
+// doneServing is called once every connection handler of a serving call has finished.
+func (s *Service) doneServing() {
+	s.mutex.Lock()
+	s.serving = false
+	s.mutex.Unlock()
 }
 
 func (s *Service) teardown() {
@@ -264,7 +272,7 @@ func (s *Service) Bind(ctx context.Context, address string) error {
 // Listen starts a Service.
 func (s *Service) Listen(ctx context.Context, address string, timeout time.Duration) error {
 	var wg sync.WaitGroup
-	defer func() { s.teardown(); wg.Wait() }()
+	defer func() { s.teardown(); wg.Wait(); s.doneServing() }()
 
 	err := s.Bind(ctx, address)
 	if err != nil {
@@ -273,6 +281,7 @@ func (s *Service) Listen(ctx context.Context, address string, timeout time.Durat
 
 	s.mutex.Lock()
 	s.running = true
+	s.serving = true
 	l := s.listener
 	s.mutex.Unlock()
 
@@ -311,7 +320,7 @@ func (s *Service) Listen(ctx context.Context, address string, timeout time.Durat
 // DoListen starts a Service.
 func (s *Service) DoListen(ctx context.Context, timeout time.Duration) error {
 	var wg sync.WaitGroup
-	defer func() { s.teardown(); wg.Wait() }()
+	defer func() { s.teardown(); wg.Wait(); s.doneServing() }()
 
 	s.mutex.Lock()
 	l := s.listener
@@ -323,6 +332,7 @@ func (s *Service) DoListen(ctx context.Context, timeout time.Duration) error {
 
 	s.mutex.Lock()
 	s.running = true
+	s.serving = true
 	s.mutex.Unlock()
 
 	for s.isRunning() {
@@ -360,11 +370,18 @@ func (s *Service) DoListen(ctx context.Context, timeout time.Duration) error {
 // RegisterInterface registers a varlink.Interface containing struct to the Service
 func (s *Service) RegisterInterface(iface dispatcher) error {
 	name := iface.VarlinkGetName()
+
+	// The registry is read by connection handlers without locking; it may only
+	// change while no serving call is in progress (that includes its drain phase
+	// after Shutdown, when accepted connections are still being handled).
+	s.mutex.Lock()
+	defer s.mutex.Unlock()
+
 	if _, ok := s.interfaces[name]; ok {
 		return fmt.Errorf("interface '%s' already registered", name)
 	}
 
-	if s.isRunning() {
+	if s.running || s.serving {
 		return fmt.Errorf("service is already running")
 	}
 	s.interfaces[name] = iface
